@@ -23,6 +23,11 @@ and wire=, keyword or positional; it is attached when its node is created, or on
 clock drivers on the half-built design (an early hw.getSimulator(), a Scope or OldWaveform probe, an RTL generation,
 direct getObjectClockDriver queries), or in the middle of the run; in the middle of the run drivers may also be detached
 or replaced by a fresh driver on another domain's enable, followed by hw.getSimulator() and a new assignment check.
+
+Time (plan fields schedule / sources): the edges are requested by clk(1) stepping, by clk(n) calls with n = 2..50 mixed
+with single steps, or by one long call; inputs and enable sources are poked between calls (held inside a call) or are
+driven by Sequence blocks of the design (changing at every edge inside a call).  A Simulator listener judges every
+edge of a call separately, with the enable value captured right before that edge.
 """
 import sys
 import time
@@ -141,7 +146,19 @@ def gen_plan(rnd, idx, pool, cycles):
                 changes[str(k)] = ch
         rephase = dict(at=rnd.randint(cycles // 4, (3 * cycles) // 4), probe=rnd.choice(('none', 'none', 'scope', 'sim', 'query')), changes=changes)
     # driver names need not be unique (a reusable block may build ClockDriver('gclk', ...) in its constructor): identity must count
-    return dict(domains=doms, order=order, cycles=cycles, same_names=(ndom >= 2 and rnd.random() < 0.4), early=early, rephase=rephase)
+    # time: how the edges are requested (clk(1) stepping, clk(n) calls with n = 2..50, one long call) and who drives the inputs
+    # (poked between calls and held inside a call, or Sequence sources of the design that change at every edge)
+    mode = rnd.choice(('step', 'step', 'mixed', 'mixed', 'bursts', 'single'))
+    schedule = []
+    tot = 0
+    while tot < cycles and mode != 'step':
+        n = cycles if mode == 'single' else rnd.randint(2, 50) if (mode == 'bursts' or rnd.random() < 0.5) else 1
+        n = min(n, cycles - tot)
+        schedule.append(n)
+        tot += n
+    sources = rnd.choice(('poke', 'sequence', 'sequence')) if mode != 'step' else rnd.choice(('poke', 'poke', 'sequence'))
+    return dict(domains=doms, order=order, cycles=cycles, same_names=(ndom >= 2 and rnd.random() < 0.4), early=early, rephase=rephase,
+                schedule_mode=mode, schedule=schedule, sources=sources)
 
 
 def gen_stimulus(rnd, plan, cycles):
@@ -226,7 +243,7 @@ class Built:
     pass
 
 
-def build(plan):
+def build(plan, stim=None):
     """instantiate the blocks, run the plan's early resolution step, attach the drivers, elaborate"""
     import py4hw
     py4hw.Wire.prepared = []
@@ -359,6 +376,12 @@ def build(plan):
         else:
             make_ensrc(k)
     B.pokes += ['p_en%d' % k for k, d in enumerate(doms) if d['kind'] in ('poked', 'gatedclock', 'self_or')]
+    if plan.get('sources', 'poke') == 'sequence':
+        # design-driven stimulus: every input net is driven by a Sequence source in the system domain, so that inputs and
+        # enables keep changing inside a clk(n) call
+        for n in B.pokes:
+            col = [s_[n] for s_ in (stim or []) if n in s_] or [0]
+            py4hw.Sequence(hw, 'src_' + n, col, wires[n])
     B.sim = None
     # what is frozen when a domain is gated: nets driven by the block's clockable leaves + their int / list attributes
     for rec in B.blocks:
@@ -538,7 +561,7 @@ def run_design(run, plan, stim, stats=None, verbose=False):
     case = dict(plan=plan, stimulus=stim)
     try:
         with muted():
-            B = build(plan)
+            B = build(plan, stim)
     except Exception as e:
         run.violation('c10_build_raises', dict(exc=type(e).__name__), dict(plan=plan), observed=traceback.format_exc()[-600:],
                       what='design does not build / elaborate: %r' % (e,))
@@ -559,13 +582,115 @@ def run_design(run, plan, stim, stats=None, verbose=False):
     doms = plan['domains']
     rp = plan.get('rephase')
     seen = {}
-    diverged = False
     twins = {}
     for rec in B.blocks:
         twins.setdefault(rec['spec']['id'], []).append(rec)
     bump('designs_by_early_step', plan.get('early', 'none'))
+    ST = dict(t=0, pre=None, fail=False, diverged=False, left=0, inburst=False, first=None)
+    sequence_sources = plan.get('sources', 'poke') == 'sequence'
+    bump('designs_by_sources', plan.get('sources', 'poke'))
+    bump('designs_by_schedule', plan.get('schedule_mode', 'step'))
+
+    def capture():
+        """what the oracle needs from right before an edge: enable values, block inputs, frozen state of gated blocks"""
+        for d in B.gating:
+            d['now'] = d['en'].get()
+        pre = []
+        for rec in B.blocks:
+            ins = {p: w.get() for p, w in rec['ins'].items()}
+            active = rec['drv'] is B.rootdrv or rec['drv']['now'] != 0
+            pre.append((ins, active, None if active else frozen_state(rec)))
+        ST['pre'] = pre
+
+    def judge():
+        """judge the edge that just happened (number ST['t'], 0-based) against the capture made before it"""
+        t = ST['t']
+        later = ST['first'] is not None and t > ST['first']
+        bump('edges_by_position_in_clk_call', 'later' if later else 'first')
+        for d in B.gating:
+            z = d['now'] == 0
+            seen.setdefault(d['key'], [0, 0])[0 if z else 1] += 1
+            bump('edges_enable_zero' if z else 'edges_enable_nonzero', d['kind'])
+            bump('edges_enable_zero_by_form' if z else 'edges_enable_nonzero_by_form', d['form'])
+            if not z and d['now'] != 1:
+                bump('edges_enable_multibit_not_1', d['kind'])
+                if not d['now'] & 1:
+                    bump('edges_enable_nonzero_even', d['kind'])
+        for rec, (ins, active, froz) in zip(B.blocks, ST['pre']):
+            e, cfg = rec['entry'], rec['cfg']
+            drv = rec['drv']
+            kind = drv['kind']
+            run.ev()
+            if active:
+                rec['state'] = e.nxt(cfg, rec['state'], ins)
+                rec['clocked'] += 1
+            else:
+                now = frozen_state(rec)
+                bump('frozen_checks', kind)
+                if now != froz:
+                    what = 'net' if now[0] != froz[0] else 'attribute'
+                    if what == 'net':
+                        i = [a != b for a, b in zip(now[0], froz[0])].index(True)
+                        where = rec['fwires'][i].getFullPath()
+                        ev, ov = froz[0][i], now[0][i]
+                    else:
+                        i = [a != b for a, b in zip(now[1], froz[1])].index(True)
+                        where = '%s.%s' % (rec['fattrs'][i][0].getFullPath(), rec['fattrs'][i][1])
+                        ev, ov = froz[1][i], now[1][i]
+                    run.violation('c10_gated_changed', dict(kind=kind, what=what, en_width=drv['enw'], form=drv['form']),
+                                  dict(case, stimulus=stim[:t + 1], cycle=t, block=rec['id'], where=where),
+                                  expected=ev, observed=ov,
+                                  what='edge %d: enable of driver %s (%s, built as %s) read 0 but %s of %s %s changed %r -> %r'
+                                       % (t + 1, drv['key'], kind, drv['form'], what, e.name, where, ev, ov))
+                    return False
+            if rec['clocked'] == 0:
+                bump('output_checks_skipped_never_clocked', kind)
+                continue
+            ins_post = {p: w.get() for p, w in rec['ins'].items()}
+            exp = e.out(cfg, rec['state'], ins_post)
+            got = {o: w.get() for o, w in rec['outs'].items()}
+            bad = c09.compare(exp, got, rec['ow'])
+            bump('output_checks_active' if active else 'output_checks_gated', kind)
+            if bad:
+                o, ev, ov = bad
+                en_val = None if drv is B.rootdrv else drv['now']
+                run.violation('c10_value', dict(kind=kind, active=bool(active), en_is_one=(en_val == 1) if en_val is not None else None,
+                                                form=drv['form']),
+                              dict(case, stimulus=stim[:t + 1], cycle=t, block=rec['id'], out=o), expected=ev, observed=ov,
+                              what='edge %d: %s %s%r (%s, driver built as %s, enable read %r) output %s expected %d got %d'
+                                   % (t + 1, rec['id'], e.name, cfg, kind, drv['form'], en_val, o, ev, ov))
+                return False
+        if not ST['diverged']:
+            for pair in twins.values():
+                if len(pair) == 2 and pair[0]['state'] != pair[1]['state']:
+                    ST['diverged'] = True
+        return True
+
+    class EdgeListener:
+        """Simulator listener: called at the end of every cycle, also inside a clk(n) burst -> every edge is judged"""
+
+        def simulatorUpdated(self):
+            if not ST['inburst'] or ST['fail']:
+                return
+            ok = judge()
+            ST['t'] += 1
+            ST['left'] -= 1
+            if not ok:
+                ST['fail'] = True
+                B.sim.stop()
+                return
+            if ST['left'] > 0:
+                # inside a burst nothing is poked: the settled state after this edge is the state before the next one
+                capture()
+                for d in B.gating:
+                    if (d['now'] == 0) != (d['start'] == 0):
+                        bump('edges_inside_clk_call_with_flipped_enable', 'now_on' if d['now'] else 'now_off')
+
+    B.sim.addListener(EdgeListener())
+    sched = list(plan.get('schedule') or [])
     with muted():
-        for t, pokes in enumerate(stim):
+        while ST['t'] < len(stim):
+            t = ST['t']
             if rp is not None and t == rp['at']:
                 try:
                     res = apply_rephase(B, plan, rp)
@@ -581,79 +706,35 @@ def run_design(run, plan, stim, stats=None, verbose=False):
                 bump('rephase_probe', rp.get('probe', 'none'))
                 for ch in rp['changes'].values():
                     bump('rephase_changes', ch.split(':')[0])
-            for n, v in pokes.items():
-                B.wires[n].put(v)
+            n = sched.pop(0) if sched else 1
+            n = max(1, min(n, len(stim) - t))
+            if rp is not None and t < rp['at'] < t + n:
+                sched.insert(0, t + n - rp['at'])       # a clk(n) call ends where the clock tree is changed
+                n = rp['at'] - t
+            if not sequence_sources:
+                for name, v in stim[t].items():         # poked inputs are held during a clk(n) call
+                    B.wires[name].put(v)
+            bump('clk_calls', '1' if n == 1 else '2-9' if n < 10 else '10-50' if n <= 50 else '>50')
             try:
                 B.sim.propagateAll()
+                capture()
                 for d in B.gating:
-                    d['now'] = d['en'].get()
-                pre = []
-                for rec in B.blocks:
-                    ins = {p: w.get() for p, w in rec['ins'].items()}
-                    active = rec['drv'] is B.rootdrv or rec['drv']['now'] != 0
-                    pre.append((ins, active, None if active else frozen_state(rec)))
-                B.sim.clk(1)
+                    d['start'] = d['now']
+                ST['left'], ST['inburst'], ST['first'] = n, True, t
+                B.sim.clk(n)
+                ST['inburst'] = False
             except Exception as e:
-                run.violation('c10_sim_raises', dict(exc=type(e).__name__), dict(case, stimulus=stim[:t + 1], cycle=t),
-                              observed=traceback.format_exc()[-600:], what='simulation raises at edge %d: %r' % (t + 1, e))
+                ST['inburst'] = False
+                run.violation('c10_sim_raises', dict(exc=type(e).__name__), dict(case, stimulus=stim[:ST['t'] + 1], cycle=ST['t']),
+                              observed=traceback.format_exc()[-600:], what='simulation raises at edge %d: %r' % (ST['t'] + 1, e))
                 return 'violation', None
-            for d in B.gating:
-                z = d['now'] == 0
-                seen.setdefault(d['key'], [0, 0])[0 if z else 1] += 1
-                bump('edges_enable_zero' if z else 'edges_enable_nonzero', d['kind'])
-                bump('edges_enable_zero_by_form' if z else 'edges_enable_nonzero_by_form', d['form'])
-                if not z and d['now'] != 1:
-                    bump('edges_enable_multibit_not_1', d['kind'])
-                    if not d['now'] & 1:
-                        bump('edges_enable_nonzero_even', d['kind'])
-            for rec, (ins, active, froz) in zip(B.blocks, pre):
-                e, cfg = rec['entry'], rec['cfg']
-                drv = rec['drv']
-                kind = drv['kind']
-                run.ev()
-                if active:
-                    rec['state'] = e.nxt(cfg, rec['state'], ins)
-                    rec['clocked'] += 1
-                else:
-                    now = frozen_state(rec)
-                    bump('frozen_checks', kind)
-                    if now != froz:
-                        what = 'net' if now[0] != froz[0] else 'attribute'
-                        if what == 'net':
-                            i = [a != b for a, b in zip(now[0], froz[0])].index(True)
-                            where = rec['fwires'][i].getFullPath()
-                            ev, ov = froz[0][i], now[0][i]
-                        else:
-                            i = [a != b for a, b in zip(now[1], froz[1])].index(True)
-                            where = '%s.%s' % (rec['fattrs'][i][0].getFullPath(), rec['fattrs'][i][1])
-                            ev, ov = froz[1][i], now[1][i]
-                        run.violation('c10_gated_changed', dict(kind=kind, what=what, en_width=drv['enw'], form=drv['form']),
-                                      dict(case, stimulus=stim[:t + 1], cycle=t, block=rec['id'], where=where),
-                                      expected=ev, observed=ov,
-                                      what='edge %d: enable of driver %s (%s, built as %s) read 0 but %s of %s %s changed %r -> %r'
-                                           % (t + 1, drv['key'], kind, drv['form'], what, e.name, where, ev, ov))
-                        return 'violation', None
-                if rec['clocked'] == 0:
-                    bump('output_checks_skipped_never_clocked', kind)
-                    continue
-                ins_post = {p: w.get() for p, w in rec['ins'].items()}
-                exp = e.out(cfg, rec['state'], ins_post)
-                got = {o: w.get() for o, w in rec['outs'].items()}
-                bad = c09.compare(exp, got, rec['ow'])
-                bump('output_checks_active' if active else 'output_checks_gated', kind)
-                if bad:
-                    o, ev, ov = bad
-                    en_val = None if drv is B.rootdrv else drv['now']
-                    run.violation('c10_value', dict(kind=kind, active=bool(active), en_is_one=(en_val == 1) if en_val is not None else None,
-                                                    form=drv['form']),
-                                  dict(case, stimulus=stim[:t + 1], cycle=t, block=rec['id'], out=o), expected=ev, observed=ov,
-                                  what='edge %d: %s %s%r (%s, driver built as %s, enable read %r) output %s expected %d got %d'
-                                       % (t + 1, rec['id'], e.name, cfg, kind, drv['form'], en_val, o, ev, ov))
-                    return 'violation', None
-            if not diverged:
-                for pair in twins.values():
-                    if len(pair) == 2 and pair[0]['state'] != pair[1]['state']:
-                        diverged = True
+            if ST['fail']:
+                return 'violation', None
+            if ST['t'] != t + n:
+                run.violation('c10_edge_count', dict(requested=n), dict(case, cycle=t), expected=n, observed=ST['t'] - t,
+                              what='clk(%d) produced %d listener notifications' % (n, ST['t'] - t))
+                return 'violation', None
+    diverged = ST['diverged']
     both = any(s[0] > 0 and s[1] > 0 for s in seen.values())
     for k, d in enumerate(doms):
         bump('domains', d['kind'])
@@ -722,6 +803,8 @@ def run_check(run, tier, seed, shard):
     run.assume('outputs of a block are compared with the reference only once the block was clocked at least once (power-up '
                'values of nets are not part of the statement); the frozen-state clause is checked from the first edge')
     run.assume('reference machines and input domains are those of C09 (vlib/seqcat.py)')
+    run.assume('clk(n) is n edges: the enable of every domain is sampled before each of them (judged per edge from a Simulator '
+               'listener, which the simulator notifies at the end of every cycle, also inside a clk(n) call)')
     run.assume('a ClockDriver with an enable gates its domain however it was built (with or without base=, with or without wire=, '
                'keyword or positional arguments): the statement speaks of "a clock driver that has an enable signal"')
     run.assume('the clock tree in force is the one present at the latest HWSystem.getSimulator() call: drivers may be attached after '
@@ -754,7 +837,7 @@ def run_check(run, tier, seed, shard):
                 if info['nontrivial']:
                     run.nt(stable_hash([plan, stim]))
                 if idx % 37 == 0:
-                    run.sample(dict(early_step=plan['early'], rephase=plan['rephase'],
+                    run.sample(dict(early_step=plan['early'], rephase=plan['rephase'], sources=plan['sources'], schedule=plan['schedule'] or 'clk(1) stepping',
                                     domains=[dict(kind=d['kind'], enw=d['enw'], depth=d['depth'], inside=d['inside'], on_block=d['on_block'],
                                                   driver_form=d['form'], attached=d['attach'],
                                                   blocks=[(b['entry'], b['cfg'], b['role'], 'nest%d' % b['nest'], b['conn']) for b in d['blocks']])
@@ -792,6 +875,13 @@ def post_merge(run, tier, seed):
     for ch in ('attach', 'detach', 'replace'):
         if not run.extra.get('rephase_changes', {}).get(ch):
             run.inconclusive.append('no mid-run %s of a clock driver followed by a re-elaboration' % ch)
+    fl = run.extra.get('edges_inside_clk_call_with_flipped_enable', {})
+    for d in ('now_on', 'now_off'):
+        if not fl.get(d):
+            run.inconclusive.append('no edge inside a clk(n>1) call at which the enable differed from its value at the start of the call (%s)' % d)
+    for m in ('step', 'mixed', 'bursts', 'single'):
+        if not run.extra.get('designs_by_schedule', {}).get(m):
+            run.inconclusive.append('no design run with schedule mode %s' % m)
     if sum(run.extra.get('edges_enable_nonzero_even', {}).values()) == 0:
         run.inconclusive.append('no edge with a multi-bit enable that is non-zero with bit 0 clear')
     if sum(run.extra.get('frozen_checks', {}).values()) == 0:
